@@ -169,14 +169,8 @@ def norm_val(v):
 
 
 def run(ctx):
-    ok_build, log = ctx.coq_build()
-    props_ok = False
-    if ok_build:
-        props_ok, pout = ctx.coq_props()
-    if not props_ok:
-        ctx.violation({"kind": "theorem-no-longer-checks", "file": "coq/Props/C14.v", "log": (log if not ok_build else pout)[-1500:]},
-                      found_input=False)
-    ctx.trusted_base += ["Coq 8.16.1 kernel + vm_compute", "harness/unitrun (Go, reflection-free pool of functions generated by gen.py)",
+    ctx.prove(["Props/C14.vo", "Run/eval_C14.vo"])
+    ctx.trusted_base += ["harness/unitrun (Go, reflection-free pool of functions generated by gen.py)",
                          "checks/c14.py (generator, Coq term printer, oracle)", "Go's reflect package behaves as Model/FnCheck.v's view of function types"]
     binp = go_build_harness(ctx, "unitrun")
     sigs = json.load(open(os.path.join(ctx.tmp, "src_unitrun", "pool.json")))
